@@ -225,6 +225,8 @@ func runGoSemStream(c *Ctx, n int) {
 			cmp(i, "dec shift", map[string]any{"x": ds, "n": sh}, dx.Shift(int32(sh)).String(), "dec1", "shift", Hex(ds), itoa(sh))
 		}
 	}
+	bt.Flush()
+	runGoSemTreeStream(c, n/10+1) // the tree of lib/common/multimap (gosem_tree.go)
 }
 
 func gosemB2i(b bool) int {
